@@ -22,6 +22,7 @@ props! {
     "c07" c07,
     "c08" c08,
     "c09" c09,
+    "c10" c10,
     "c13" c13,
     "c16" c16,
     "c17" c17,
